@@ -632,7 +632,14 @@ def _release_body(e, seed, owned, kind):
     """builds the graph on tensors over the caller's arrays (copy=False) through NON-LEAF intermediates, back-propagates, returns nothing:
     when this function returns every local is gone"""
     leaves = [mg.tensor(a, copy=False) for a in owned]
-    xs = [t * 1.0 for t in leaves] if kind == 0 else list(leaves)
+    xs = [t * 1.0 for t in leaves] if kind in (0, 3) else list(leaves)
+    cst = None
+    if kind == 3:
+        # one operand is a CONSTANT tensor that is itself the output of an operation (a stop-gradient): backward() releases the graph through it as well
+        if len(xs) < 2:
+            return "skipped"
+        cst = mg.multiply(leaves[-1], 1.0, constant=True)
+        xs[-1] = cst
     out = e.fn(*xs)
     if not isinstance(out, mg.Tensor) or out.constant:
         return "skipped"
@@ -640,6 +647,8 @@ def _release_body(e, seed, owned, kind):
     if kind == 2:
         return "dropped-without-backward"
     L.backward()
+    if cst is not None and (cst.creator is not None or any(t.creator is not None for t in xs if isinstance(t, mg.Tensor))):
+        return "an operand upstream of backward() (the constant one: %s) still has its creator" % (cst.creator is not None)
     return "backward"
 
 
@@ -660,6 +669,8 @@ def run_release(e, seed, kind):
         how = "raised:" + type(ex).__name__
     now = _census()
     msgs = []
+    if how.startswith("an operand upstream"):
+        msgs.append(how)
     if how in ("backward", "dropped-without-backward"):
         if now != base:
             msgs.append("%d tensor(s) and %d operation(s) are still alive after %s and dropping every reference (cyclic GC disabled)" % (now[0] - base[0], now[1] - base[1], how))
